@@ -1,5 +1,8 @@
-import Proto.DA7
+import Proto.DA10
 import Proto.Flow3
 import Proto.BSearch
+import Proto.Eat1
+import Proto.Bvn1
+import Proto.CertProof
 import Proto.AssignDual
 import Proto.SMDual
